@@ -305,7 +305,8 @@ Defocus(rows) == [k \in DOMAIN rows |-> [d1 |-> rows[k].u, d2 |-> rows[k].v, mea
 RECURSIVE Concat(_)
 Concat(ss) == IF ss = <<>> THEN <<>> ELSE ss[1] \o Concat(Tail(ss))
 WedgeRowsOf(t, consts) ==
-    LET tl == TltLoad(t.tilts, TRUE)
+    LET \* a tilt FILE is loaded ascending; a tilt ARRAY is taken as it is (field asis), whatever its order
+        tl == IF "asis" \in DOMAIN t /\ t.asis THEN t.tilts ELSE TltLoad(t.tilts, TRUE)
         df == Defocus(t.ctf)
     IN  [i \in DOMAIN tl |-> [tomo |-> t.id, px |-> consts.px, dim |-> t.dim, zshift |-> t.zshift, tilt |-> tl[i],
                               mean2 |-> IF t.ctf = <<>> THEN -1 ELSE df[i].mean2,
